@@ -85,21 +85,13 @@ Definition wf_leaf (l : leaf) : bool :=
   | K_LogicalObservableOperation, _, a =>
       match a with
       | [Some la; Some m] => rec_ok (la + 1) m
-      | [_; _] => true          (* no measurement named: the observable is declared with no target (see obs_untargeted) *)
+      | [_; _] => true          (* no measurement named: the observable is declared, OBSERVABLE_INCLUDE(0), with no target *)
       | _ => false
       end
   | k, qs, _ => match doc_gate k with
                 | Some _ => forallb valid_qubit qs && match qs with [a; b] => negb (a =? b) | _ => true end
                 | None => true
                 end
-  end.
-
-(* the class of inputs behind known finding F11: an observable without (last_acquisition_index, main_target) *)
-Definition obs_untargeted (l : leaf) : bool :=
-  match l_kind l, l_args l with
-  | K_LogicalObservableOperation, [Some _; Some _] => false
-  | K_LogicalObservableOperation, _ => true
-  | _, _ => false
   end.
 
 Fixpoint wf_item (i : item) : bool :=
